@@ -4,6 +4,7 @@
 From Coq Require Import ZArith List Bool Reals Lra Lia Psatz.
 From Coquelicot Require Import Coquelicot.
 From CV Require Import Base.Num Base.RNum C18.ValueModel C06.RestraintModel C06.RestraintProofs C01.ForceModel.
+From CV Require C18.ValueProofs.
 Import ListNotations.
 Local Open Scope R_scope.
 
@@ -960,4 +961,202 @@ Proof.
                     - S * (vx * a + vy * b + vz * c) / n).
       { unfold S. field. exact Hs. }
       rewrite Ho. field. exact Hs.
+Qed.
+
+(* ---- components that look at individual atoms: inertia, gyration ---- *)
+Fixpoint move_pos (l : list V3) (t : R) (D : list V3) : list V3 :=
+  match l, D with p :: l', d :: D' => v3add Rops p (v3scale Rops t d) :: move_pos l' t D' | _, _ => l end.
+Lemma gd_pos_move (g : GD) t D : gd_pos (move_gd g t D) = move_pos (gd_pos g) t D.
+Proof.
+  unfold gd_pos. rewrite gd_atoms_move. generalize (gd_atoms g) as l. intros l. revert D.
+  induction l as [|a l IH]; intros D; destruct D as [|d D']; try reflexivity.
+  cbn [move_atoms map move_pos]. rewrite IH. reflexivity.
+Qed.
+Lemma dot_list_nil_r (gr : list V3) : dot_list gr [] = 0.
+Proof. destruct gr; reflexivity. Qed.
+Lemma move_pos_nil (l : list V3) t : move_pos l t [] = l.
+Proof. destruct l; reflexivity. Qed.
+Lemma dot_list_scale c (l D : list V3) : dot_list (map (v3scale Rops c) l) D = c * dot_list l D.
+Proof.
+  revert D. induction l as [|p l IH]; intros D; destruct D as [|d D']; cbn [map dot_list]; try ring.
+  rewrite IH, v3dot_scale_l. ring.
+Qed.
+Lemma dot_lists_1 (a : list V3) Ds : dot_lists [a] Ds = dot_list a (nth 0 Ds []).
+Proof. destruct Ds as [|D0 Ds']; cbn [dot_lists nth]; [rewrite dot_list_nil_r; reflexivity|ring]. Qed.
+Lemma gds_1 (gs : list GD) : length gs = 1%nat -> gs = [gnth gs 0].
+Proof. intros Hl. destruct gs as [|g0 [|g1 r]]; cbn [length] in Hl; try lia. reflexivity. Qed.
+
+Lemma move_pos_zero (l D : list V3) : move_pos l 0 D = l.
+Proof.
+  revert D. induction l as [|p l IH]; intros D; destruct D as [|d D']; try reflexivity.
+  cbn [move_pos]. rewrite IH. f_equal. apply v3_ext. intros j. rewrite vget_add, vget_scale. ring.
+Qed.
+
+Lemma move_pos_length (l D : list V3) t : length (move_pos l t D) = length l.
+Proof. revert D. induction l as [|p l IH]; intros D; destruct D as [|d D']; try reflexivity. cbn [move_pos length]. rewrite IH. reflexivity. Qed.
+
+Lemma sumsq_dir (l D : list V3) :
+  is_derive (fun t => tsum Rops (map (v3norm2 Rops) (move_pos l t D))) 0 (2 * dot_list l D).
+Proof.
+  revert D. induction l as [|p l IH]; intros D.
+  - cbn [move_pos map dot_list]. replace (2 * 0) with 0 by ring. apply @is_derive_const.
+  - destruct D as [|d D'].
+    + cbn [move_pos dot_list]. replace (2 * 0) with 0 by ring. apply @is_derive_const.
+    + cbn [move_pos map dot_list].
+      apply (is_derive_ext (fun t => v3norm2 Rops (v3add Rops p (v3scale Rops t d)) + tsum Rops (map (v3norm2 Rops) (move_pos l t D')))); [reflexivity|].
+      replace (2 * (v3dot Rops p d + dot_list l D')) with (2 * v3dot Rops p d + 2 * dot_list l D') by ring.
+      apply @is_derive_plus; [|apply IH].
+      destruct p as [[x y] z], d as [[dx dy] dz]. unfold v3norm2, v3dot, v3add, v3scale. cbn [nadd nmul Rops].
+      auto_derive; [exact I|ring].
+Qed.
+
+Lemma dir_correct_inertia (gs : list GD) : length gs = 1%nat -> dir_correct (k_inertia Rops) gs.
+Proof.
+  intros Hl. split.
+  - unfold k_inertia. cbn [snd]. pose proof (gds_1 gs Hl) as E. set (g0 := gnth gs 0) in *. rewrite E. cbn [shape_ok]. split; [|exact I].
+    unfold gd_pos. rewrite !map_length. reflexivity.
+  - intros Ds. unfold k_inertia. cbn [fst snd]. rewrite dot_lists_1.
+    apply (is_derive_ext (fun t => tsum Rops (map (v3norm2 Rops) (move_pos (gd_pos (gnth gs 0)) t (nth 0 Ds []))))).
+    + intros t. rewrite gnth_move, gd_pos_move. reflexivity.
+    + rewrite dot_list_scale. apply sumsq_dir.
+Qed.
+
+Lemma dir_correct_gyration (gs : list GD) : length gs = 1%nat -> fst (k_gyration Rops gs) <> 0 ->
+  dir_correct (k_gyration Rops) gs.
+Proof.
+  intros Hl Hne. split.
+  - unfold k_gyration. cbn [snd]. pose proof (gds_1 gs Hl) as E. set (g0 := gnth gs 0) in *. rewrite E. cbn [shape_ok]. split; [|exact I].
+    unfold gd_pos. rewrite !map_length. reflexivity.
+  - intros Ds. unfold k_gyration in *. cbn [fst snd] in *. rewrite dot_lists_1.
+    set (l := gd_pos (gnth gs 0)) in *. set (N := ofnat Rops (length l)) in *.
+    cbn [nsqrt ndiv nmul Rops] in *.
+    assert (Hpos : 0 < tsum Rops (map (v3norm2 Rops) l) / N).
+    { destruct (Rlt_dec 0 (tsum Rops (map (v3norm2 Rops) l) / N)) as [H|H]; [exact H|].
+      exfalso. apply Hne. apply sqrt_neg_0. lra. }
+    apply (is_derive_ext (fun t => sqrt (tsum Rops (map (v3norm2 Rops) (move_pos l t (nth 0 Ds []))) / N))).
+    + intros t. rewrite gnth_move, gd_pos_move. fold l. rewrite move_pos_length. reflexivity.
+    + rewrite dot_list_scale.
+      assert (HN : N <> 0).
+      { intros H0. rewrite H0 in Hpos. unfold Rdiv in Hpos. rewrite Rinv_0, Rmult_0_r in Hpos. lra. }
+      evar_last.
+      * apply (is_derive_sqrt (fun t => tsum Rops (map (v3norm2 Rops) (move_pos l t (nth 0 Ds []))) / N) 0 (/ N * (2 * dot_list l (nth 0 Ds [])))).
+        -- apply (is_derive_ext (fun t => / N * tsum Rops (map (v3norm2 Rops) (move_pos l t (nth 0 Ds []))))); [intros t; unfold Rdiv; apply Rmult_comm|].
+           apply is_derive_scal. apply sumsq_dir.
+        -- rewrite move_pos_zero. exact Hpos.
+      * rewrite move_pos_zero. unfold one. cbn [n1 Rops].
+        assert (Hs : sqrt (tsum Rops (map (v3norm2 Rops) l) / N) <> 0) by (apply Rgt_not_eq, sqrt_lt_R0; exact Hpos).
+        field. split; [exact Hs|exact HN].
+Qed.
+
+(* ------------------------------------------------------------------ components as functions of the atomic coordinates *)
+Definition group_mass_ok (s : SYS) (g : GRP) : Prop :=
+  match g with GDummy _ => True | GAtoms ids _ _ _ => tsum Rops (map (fun i => a_mass (atom_at Rops s i)) ids) <> 0 end.
+(* a centred group carries its fit gradients (enableFitGradients on, the default) *)
+Definition fit_on (g : GRP) : Prop := match g with GAtoms _ (Some _) _ false => False | _ => True end.
+Definition grp_ok (s : SYS) (g : GRP) : Prop := wf_group s g /\ group_mass_ok s g /\ fit_on g.
+
+Lemma gd_wf_of (s : SYS) (g : GRP) : group_mass_ok s g -> gd_wf (gdata_of Rops s g).
+Proof.
+  destruct g as [p|ids c fit fg]; intros H; unfold gd_wf; cbn [gdata_of gd_dummy gd_atoms]; [reflexivity|].
+  unfold gd_mass. cbn [gd_atoms]. rewrite map_map. unfold am. cbn [fst]. exact H.
+Qed.
+Lemma fit_ok_on (gs : list GRP) grs : List.Forall fit_on gs -> fit_ok gs grs.
+Proof.
+  revert grs. induction gs as [|g gs' IH]; intros grs H; destruct grs as [|gr grs']; cbn [fit_ok]; auto.
+  inversion H as [|g0 l0 Hg Hr]; subst. split; [|apply IH; exact Hr].
+  destruct g as [p|ids c fit fg]; cbn [fit_ok_g]; auto. destruct c; auto. destruct fg; auto. cbn [fit_on] in Hg. contradiction.
+Qed.
+
+Lemma grp_ok_2 (s : SYS) g1 g2 : grp_ok s g1 -> grp_ok s g2 ->
+  List.Forall (wf_group s) [g1; g2] /\ gds_wf (map (gdata_of Rops s) [g1; g2]) 2 /\ List.Forall fit_on [g1; g2].
+Proof.
+  intros (W1 & M1 & F1) (W2 & M2 & F2). repeat split; auto.
+  cbn [map]. repeat constructor; apply gd_wf_of; assumption.
+Qed.
+
+Lemma norm2_sub_ne (a b : V3) : a <> b -> v3norm2 Rops (v3sub Rops a b) <> 0.
+Proof. intros H E. apply H. apply (proj1 (CV.C18.ValueProofs.v3_zero_iff a b)). exact E. Qed.
+
+Lemma cvc_grad_correct_distance cell pbc co e g1 g2 (s : SYS) :
+  grp_ok s g1 -> grp_ok s g2 -> plain pbc cell ->
+  gd_com Rops (gdata_of Rops s g2) <> gd_com Rops (gdata_of Rops s g1) ->
+  cvc_grad_correct cell (mkCvc co e (KDistance pbc) [g1; g2]) s.
+Proof.
+  intros H1 H2 Hpl Hne. destruct (grp_ok_2 s g1 g2 H1 H2) as (HW & HG & HF).
+  apply group_layer; cbn [c_groups c_kind keval]; [exact HW| |apply fit_ok_on; exact HF].
+  apply dir_correct_distance; [exact HG|exact Hpl|]. cbn [map]. unfold gnth. cbn [nth]. apply norm2_sub_ne. exact Hne.
+Qed.
+
+Lemma cvc_grad_correct_distanceZ cell pbc co e ax gm gr (s : SYS) :
+  grp_ok s gm -> grp_ok s gr -> plain pbc cell ->
+  cvc_grad_correct cell (mkCvc co e (KDistanceZ pbc ax) [gm; gr]) s.
+Proof.
+  intros H1 H2 Hpl. destruct (grp_ok_2 s gm gr H1 H2) as (HW & HG & HF).
+  apply group_layer; cbn [c_groups c_kind keval]; [exact HW| |apply fit_ok_on; exact HF].
+  apply dir_correct_distance_z; [exact HG|exact Hpl].
+Qed.
+
+Lemma cvc_grad_correct_distanceXY cell pbc co e ax gm gr (s : SYS) :
+  grp_ok s gm -> grp_ok s gr -> plain pbc cell -> v3norm2 Rops ax = 1 ->
+  v3norm2 Rops (vperp (v3sub Rops (gd_com Rops (gdata_of Rops s gm)) (gd_com Rops (gdata_of Rops s gr))) ax) <> 0 ->
+  cvc_grad_correct cell (mkCvc co e (KDistanceXY pbc ax) [gm; gr]) s.
+Proof.
+  intros H1 H2 Hpl Hax Hne. destruct (grp_ok_2 s gm gr H1 H2) as (HW & HG & HF).
+  apply group_layer; cbn [c_groups c_kind keval]; [exact HW| |apply fit_ok_on; exact HF].
+  apply dir_correct_distance_xy; [exact HG|exact Hpl|exact Hax|]. cbn [map]. unfold gnth. cbn [nth]. exact Hne.
+Qed.
+
+(* gyration / inertia: the component centres its group on the origin itself (no fit gradients are stored: they vanish) *)
+Lemma rnat_S n : rnat (Datatypes.S n) = rnat n + 1.
+Proof. unfold rnat. rewrite Nat2Z.inj_succ, succ_IZR. reflexivity. Qed.
+Lemma tsum_const {A} c (l : list A) : tsum Rops (map (fun _ => c) l) = rnat (length l) * c.
+Proof. induction l as [|a l IH]; [cbn; unfold rnat; cbn; ring|]. cbn [map length]. rewrite tsum_cons, IH, rnat_S. ring. Qed.
+
+Lemma centred_vsum (s : SYS) ids rc fg : ids <> [] ->
+  vsum Rops (gd_pos (gdata_of Rops s (GAtoms ids (Some rc) None fg))) = v3scale Rops (rnat (length ids)) rc.
+Proof.
+  intros Hne. apply v3_ext. intros j. rewrite vget_vsum, vget_scale.
+  unfold gd_pos. cbn [gdata_of gd_atoms fit_ids gshift]. rewrite !map_map. unfold ap. cbn [snd].
+  rewrite (tsum_ext _ (fun i => vget j (a_pos (atom_at Rops s i)) + (vget j rc - vget j (cog_of Rops s ids))))
+    by (intros i _; rewrite vget_add, vget_sub; reflexivity).
+  rewrite tsum_plus, tsum_const. unfold cog_of. rewrite vget_div, vget_vsum, map_map.
+  assert (HN : rnat (length ids) <> 0).
+  { destruct ids as [|i l]; [contradiction|]. cbn [length]. rewrite rnat_S. unfold rnat.
+    pose proof (IZR_le 0 (Z.of_nat (length l)) ltac:(lia)). lra. }
+  unfold ofnat. cbn [nofZ Rops]. fold (rnat (length ids)). field. exact HN.
+Qed.
+
+Lemma vsum_scale c (l : list V3) : vsum Rops (map (v3scale Rops c) l) = v3scale Rops c (vsum Rops l).
+Proof.
+  apply v3_ext. intros j. rewrite vget_scale, !vget_vsum, map_map.
+  rewrite (tsum_ext _ (fun p => c * vget j p)) by (intros p _; apply vget_scale). apply tsum_scale'.
+Qed.
+Lemma v3scale_zero_r c : v3scale Rops c (vzero Rops) = vzero Rops.
+Proof. apply v3_ext. intros j. rewrite vget_scale, vget_zero. ring. Qed.
+
+Definition self_centred (ids : list nat) : GRP := GAtoms ids (Some (vzero Rops)) None false.
+
+Lemma cvc_grad_correct_inertia cell co e ids (s : SYS) :
+  ids_ok s ids -> ids <> [] ->
+  cvc_grad_correct cell (mkCvc co e KInertia [self_centred ids]) s.
+Proof.
+  intros Hok Hne.
+  apply group_layer; cbn [c_groups c_kind keval].
+  - repeat constructor; cbn [fit_ids]; auto.
+  - apply dir_correct_inertia. reflexivity.
+  - unfold cvc_eval. cbn [c_groups c_kind keval map k_inertia snd fit_ok fit_ok_g self_centred]. split; [|exact I].
+    unfold gnth. cbn [nth]. unfold self_centred. rewrite vsum_scale, centred_vsum by exact Hne. rewrite !v3scale_zero_r. reflexivity.
+Qed.
+
+Lemma cvc_grad_correct_gyration cell co e ids (s : SYS) :
+  ids_ok s ids -> ids <> [] ->
+  cvc_value Rops PI cell (mkCvc co e KGyration [self_centred ids]) s <> 0 ->
+  cvc_grad_correct cell (mkCvc co e KGyration [self_centred ids]) s.
+Proof.
+  intros Hok Hne Hv.
+  apply group_layer; cbn [c_groups c_kind keval].
+  - repeat constructor; cbn [fit_ids]; auto.
+  - apply dir_correct_gyration; [reflexivity|exact Hv].
+  - unfold cvc_eval. cbn [c_groups c_kind keval map k_gyration snd fit_ok fit_ok_g self_centred]. split; [|exact I].
+    unfold gnth. cbn [nth]. unfold self_centred. rewrite vsum_scale, centred_vsum by exact Hne. rewrite !v3scale_zero_r. reflexivity.
 Qed.
